@@ -250,6 +250,7 @@ func runC17(c *core.Ctx, r *core.Reporter) {
 	c17relock(c, r)
 	c17recheck(c, r)
 	c17printer(c, r, "C17.printer")
+	c17callerscope(c, r, "C17.callerscope")
 }
 
 // c17relock: turning synchronisation on installs a new mutex. Doing that on an instance that is already
